@@ -126,6 +126,14 @@ def shard(args):
                             ok = type(b) is type(a0) and b.dtype == a0.dtype and b.shape == a0.shape and AR.sysof(b) == tuple(system) and \
                                 np.asarray(b).tolist() == np.asarray(a0).tolist()
                             F.check("C19", f"{nm}-roundtrip/{mname}/{tag}", ok, dict(type=type(b).__name__, dtype=str(b.dtype), shape=b.shape))
+                            # ... and the array that was copied / pickled is still the same array of vectors (class, system, element access, a method)
+                            try:
+                                first = a0[(0,) * a0.ndim] if a0.ndim > 1 else a0[0]
+                                oks = AR.sysof(a0) == tuple(system) and isinstance(a0, vector.Momentum) == mom and type(first) is cls_obj and AR.sysof(first) == tuple(system) and \
+                                    np.asarray(a0.rho).shape == a0.shape
+                            except Exception as e2:
+                                oks = False
+                            F.check("C19", f"{nm}-roundtrip/{mname}/source-intact/{tag}", oks, None)
                             if ok and b.size:
                                 n0 = b.dtype.names[0]
                                 F.check("C19", f"{nm}-roundtrip/{mname}/named-column-is-own-memory/{tag}", np.shares_memory(b[n0], b) and not np.shares_memory(b[n0], a0) and np.array_equal(b[n0], a0[n0]), None)
